@@ -248,6 +248,66 @@ Fixpoint runs (i : nat) (pos : list nat) : list (nat * nat * nat) :=
       end
   end.
 
+(* ---- modes 4 and 5: parameter iterations that are alive at the same time.  Every iterator belongs to
+   its own coefficient set; what it yields depends on its own set and selection only. ---- *)
+Definition sel_sep : Z := 63.
+
+Definition split_sels (l : list Z) : list (list Z) :=
+  fold_right (fun x acc => if x =? sel_sep then [] :: acc
+                           else match acc with h :: t => (x :: h) :: t | [] => [[x]] end) [[]] l.
+
+(* the parameters of one set: (yielded index, memory position) *)
+Definition params_of (ts : list Z) : list (nat * nat) :=
+  let tp := tuned_params (in_targets (targets_of ts)) zero_rep in
+  combine (seq 0 (List.length tp)) (map (mem_pos zero_rep) tp).
+
+Definition live_rec (j : nat) (ip : nat * nat) : list Z := [zn j; zn (fst ip); zn j; zn (snd ip); 1].
+
+(* one round: iterator j advances stride_j steps *)
+Fixpoint live_round (j : nat) (strides : list nat) (qs : list (list (nat * nat))) : list Z * list (list (nat * nat)) :=
+  match qs with
+  | [] => ([], [])
+  | q :: rest =>
+      let s := match strides with s :: _ => s | [] => 1%nat end in
+      let r := live_round (S j) (tl strides) rest in
+      (flat_map (live_rec j) (firstn s q) ++ fst r, skipn s q :: snd r)
+  end.
+
+Fixpoint live_rounds (fuel : nat) (strides : list nat) (qs : list (list (nat * nat))) : list Z :=
+  match fuel with
+  | O => []
+  | S k =>
+      if forallb (fun q => match q with [] => true | _ => false end) qs then []
+      else let r := live_round 0 strides qs in fst r ++ live_rounds k strides (snd r)
+  end.
+
+Definition live_records (pattern : Z) (ps : list (list (nat * nat))) : list Z :=
+  let total := list_sum (map (@List.length _) ps) in
+  if pattern =? 0 then
+    List.concat (map (fun jq => flat_map (live_rec (fst jq)) (snd jq)) (combine (seq 0 (List.length ps)) ps))
+  else if pattern =? 1 then live_rounds (S total) [] ps
+  else if pattern =? 3 then
+    live_rounds (S total) (map (fun j => nth (Nat.modulo j 3) [2; 1; 3]%nat 1%nat) (seq 0 (List.length ps))) ps
+  else (* nested *)
+    match ps with
+    | [] => []
+    | outer :: others =>
+        let inner := List.concat (map (fun jq => flat_map (live_rec (fst jq)) (snd jq))
+                                      (combine (seq 1 (List.length others)) others)) in
+        flat_map (fun ip => live_rec 0 ip ++ inner) (firstn 3 outer)
+    end.
+
+(* the cells written per set *)
+Definition live_marked (pattern : Z) (ps : list (list (nat * nat))) : list (list nat) :=
+  if pattern =? 2 then
+    match ps with
+    | [] => []
+    | outer :: others =>
+        map (@snd _ _) (firstn 3 outer) ::
+        map (fun q => match outer with [] => [] | _ => map (@snd _ _) q end) others
+    end
+  else map (map (@snd _ _)) ps.
+
 Definition run_c19vec (l : list Z) : list Z :=
   match l with
   | 0 :: _ :: nt :: ts0 =>
@@ -280,6 +340,15 @@ Definition run_c19vec (l : list Z) : list Z :=
       let dv := diff_pairs (to_vector sel e) (to_vector sel e') in
       [zn n] ++ [zn (length dm) / 2] ++ dm ++ [zn (length dv) / 2] ++ dv ++ [1]
   | 2 :: _ => flat_all engine_rep
+  | 4 :: pattern :: nt :: ts0 =>
+      let ps := map params_of (split_sels (firstn (Z.to_nat nt) ts0)) in
+      let recs := live_records pattern ps in
+      [zn (List.length recs) / 5] ++ recs ++
+      flat_map (fun m => zn (List.length m) :: map zn m) (live_marked pattern ps)
+  | 5 :: k :: nt :: ts0 =>
+      let sel := in_targets (targets_of (firstn (Z.to_nat nt) ts0)) in
+      let n := vec_len sel zero_rep in
+      flat_map (fun _ => [1; 1; zn n]) (seq 0 (Z.to_nat k))
   | 3 :: _ :: nt :: ts0 =>
       let ts := firstn (Z.to_nat nt) ts0 in
       let sel := in_targets (targets_of ts) in
